@@ -1,6 +1,7 @@
 /-
 C08 — lemmas about the query part: what `record` (the compiler's `dml_exprs` bookkeeping)
-returns versus the syntactic `containsDML`, and purity of `run` when nothing was recorded.
+returns versus the syntactic `containsDML` / `containsStmt`, and purity of `run` when no DML
+statement was reached.
 -/
 import EdbVerif.Model.CapsSpec
 
@@ -20,120 +21,218 @@ theorem appendR_ok {a b : Except Reject (List Rec)} {l : List Rec} (h : appendR 
       simp only [appendR, Except.ok.injEq] at h
       exact ⟨la, lb, rfl, rfl, h.symm⟩
 
-theorem appendR_nil {a b : Except Reject (List Rec)} (h : appendR a b = .ok []) :
-    a = .ok [] ∧ b = .ok [] := by
+theorem appendR_any {p : Rec → Bool} {a b : Except Reject (List Rec)} {l : List Rec}
+    (h : appendR a b = .ok l) (hp : l.any p = false) :
+    ∃ la lb, a = .ok la ∧ b = .ok lb ∧ la.any p = false ∧ lb.any p = false := by
   obtain ⟨la, lb, ha, hb, hl⟩ := appendR_ok h
-  have := List.append_eq_nil_iff.mp hl.symm
-  exact ⟨by rw [ha, this.1], by rw [hb, this.2]⟩
+  subst hl
+  rw [List.any_append, Bool.or_eq_false_iff] at hp
+  exact ⟨la, lb, ha, hb, hp.1, hp.2⟩
 
-/-- "when compilation succeeds, the recorded list is empty exactly when `b` is false" -/
-def OkEmpty (r : Except Reject (List Rec)) (b : Bool) : Prop :=
-  ∀ l, r = .ok l → l.isEmpty = !b
+/-- "when compilation succeeds, some recorded entry satisfies `p` exactly when `b` is true" -/
+def OkAny (p : Rec → Bool) (r : Except Reject (List Rec)) (b : Bool) : Prop :=
+  ∀ l, r = .ok l → l.any p = b
 
-theorem OkEmpty.append {a b : Except Reject (List Rec)} {x y : Bool}
-    (ha : OkEmpty a x) (hb : OkEmpty b y) : OkEmpty (appendR a b) (x || y) := by
+theorem OkAny.append {p : Rec → Bool} {a b : Except Reject (List Rec)} {x y : Bool}
+    (ha : OkAny p a x) (hb : OkAny p b y) : OkAny p (appendR a b) (x || y) := by
   intro l h
   obtain ⟨la, lb, ea, eb, el⟩ := appendR_ok h
-  have h1 := ha la ea
-  have h2 := hb lb eb
   subst el
-  cases x <;> cases y <;> simp_all [List.isEmpty_iff]
+  rw [List.any_append, ha la ea, hb lb eb]
 
-theorem OkEmpty.nil : OkEmpty (.ok []) false := by
+theorem OkAny.nil {p : Rec → Bool} : OkAny p (.ok []) false := by
   intro l h; cases h; rfl
 
-theorem OkEmpty.error {e : Reject} {b : Bool} : OkEmpty (.error e) b := by
+theorem OkAny.error {p : Rec → Bool} {e : Reject} {b : Bool} : OkAny p (.error e) b := by
   intro l h; cases h
 
-theorem OkEmpty.single {r : Rec} : OkEmpty (.ok [r]) true := by
-  intro l h; cases h; rfl
+theorem OkAny.single {p : Rec → Bool} {r : Rec} : OkAny p (.ok [r]) (p r) := by
+  intro l h; cases h; simp
 
-theorem OkEmpty.guard {cx : Cx} {r : Except Reject (List Rec)} {b : Bool} (h : OkEmpty r b) :
-    OkEmpty (match dmlGuard cx with | .error e => .error e | .ok () => r) b := by
+theorem OkAny.guard {p : Rec → Bool} {cx : Cx} {r : Except Reject (List Rec)} {b : Bool}
+    (h : OkAny p r b) :
+    OkAny p (match dmlGuard cx with | .error e => .error e | .ok () => r) b := by
   cases dmlGuard cx with
-  | error e => exact OkEmpty.error
+  | error e => exact OkAny.error
   | ok u => cases u; exact h
 
-theorem okEmpty_callee (fe : FnEnv) (cx : Cx) (f : Nat) :
-    OkEmpty (match fe[f]? with
-       | none => .error .unknownFn
-       | some d =>
-         if d.modifying then
-           if d.dmlStmt && cx.disallow then .error .clause
-           else if cx.selShape then .error .shape
-           else .ok [.call f d.dmlStmt]
-         else .ok []) (fnModifying fe f) := by
-  unfold fnModifying
-  cases hf : fe[f]? with
-  | none => exact OkEmpty.error
-  | some d =>
-    simp only
-    cases hm : d.modifying with
-    | false => simpa using OkEmpty.nil
-    | true =>
-      simp only [if_true]
-      split
-      · exact OkEmpty.error
-      · split
-        · exact OkEmpty.error
-        · exact OkEmpty.single
+/-- the two readings of the recorded list: "anything recorded" (`has_dml`) and "a DML statement
+reached" (volatility inference) -/
+structure Reading (p : Rec → Bool) (g : FnDecl → Bool) : Prop where
+  stmt : ∀ k, p (.stmt k) = true
+  call : ∀ f (d : FnDecl), p (.call f d.dmlStmt) = g d
 
-/-! ### the recorded list is non-empty exactly when the query contains DML -/
+theorem reading_all : Reading (fun _ => true) (fun _ => true) := ⟨fun _ => rfl, fun _ _ => rfl⟩
+theorem reading_stmt : Reading Rec.isStmt (·.dmlStmt) := ⟨fun _ => rfl, fun _ _ => rfl⟩
+
+theorem OkAny.stmtHead {p : Rec → Bool} {g : FnDecl → Bool} (hr : Reading p g) {k : DmlKind}
+    {r : Except Reject (List Rec)} {b : Bool} (h : OkAny p r b) :
+    OkAny p (appendR (.ok [.stmt k]) r) true := by
+  have := (OkAny.single (p := p) (r := .stmt k)).append h
+  rw [hr.stmt, Bool.true_or] at this
+  exact this
+
+theorem okAny_callRec {p : Rec → Bool} {g : FnDecl → Bool} (hr : Reading p g)
+    (cx : Cx) (f : Nat) (d : FnDecl) : OkAny p (callRec cx f d) (d.modifying && g d) := by
+  unfold callRec
+  cases hm : d.modifying with
+  | false => simpa using OkAny.nil
+  | true =>
+    simp only [if_true, Bool.true_and]
+    split
+    · exact OkAny.error
+    · split
+      · exact OkAny.error
+      · split
+        · exact OkAny.error
+        · rw [← hr.call f d]; exact OkAny.single
+      · rw [← hr.call f d]; exact OkAny.single
+
+theorem okAny_callee {p : Rec → Bool} {g : FnDecl → Bool} (hr : Reading p g)
+    (fe : FnEnv) (cx : Cx) (f : Nat) :
+    OkAny p (match fe[f]? with
+       | none => .error .unknownFn
+       | some d => callRec cx f d) (fnFlag g fe f) := by
+  unfold fnFlag
+  cases hf : fe[f]? with
+  | none => exact OkAny.error
+  | some d => exact okAny_callRec hr cx f d
+
+/-! ### the recorded list versus the syntactic predicates -/
 
 mutual
-theorem record_char (fe : FnEnv) : ∀ (q : Q) (cx : Cx), OkEmpty (record fe cx q) (containsDML fe q)
-  | .lit _, _ => by simpa [record, containsDML] using OkEmpty.nil
-  | .var _, _ => by simpa [record, containsDML] using OkEmpty.nil
-  | .objs _, _ => by simpa [record, containsDML] using OkEmpty.nil
+theorem record_charG {p : Rec → Bool} {g : FnDecl → Bool} (hr : Reading p g) (fe : FnEnv) :
+    ∀ (q : Q) (cx : Cx), OkAny p (record fe cx q) (containsG g fe q)
+  | .lit _, _ => by simpa [record, containsG] using OkAny.nil
+  | .var _, _ => by simpa [record, containsG] using OkAny.nil
+  | .objs _, _ => by simpa [record, containsG] using OkAny.nil
   | .op args, cx => by
-    simp only [record, containsDML]; exact recordL_char fe args cx
+    simp only [record, containsG]; exact recordL_charG hr fe args cx
   | .call f args, cx => by
-    simp only [record, containsDML]
-    rw [Bool.or_comm]
-    exact (recordL_char fe args cx).append (okEmpty_callee fe cx f)
+    simp only [record, containsG]
+    exact (recordL_charG hr fe args cx).append (okAny_callee hr fe cx f)
   | .ifElse c t e, cx => by
-    simp only [record, containsDML, Bool.or_assoc]
-    exact (record_char fe c cx).append ((record_char fe t cx).append (record_char fe e cx))
+    simp only [record, containsG]
+    exact (record_charG hr fe c cx).append ((record_charG hr fe t cx).append (record_charG hr fe e cx))
   | .select subj shape filter order offlim, cx => by
-    simp only [record, containsDML, Bool.or_assoc]
-    exact (record_char fe subj cx).append ((recordL_char fe shape _).append
-      ((recordL_char fe filter _).append ((recordL_char fe order _).append (recordL_char fe offlim cx))))
+    simp only [record, containsG]
+    exact (record_charG hr fe subj _).append ((recordL_charG hr fe shape _).append
+      ((recordL_charG hr fe filter _).append ((recordL_charG hr fe order _).append
+        (recordL_charG hr fe offlim _))))
   | .withB _ b body, cx => by
-    simp only [record, containsDML]
-    exact (record_char fe b cx).append (record_char fe body cx)
+    simp only [record, containsG]
+    exact (record_charG hr fe b _).append (record_charG hr fe body cx)
   | .forQ _ iter body, cx => by
-    simp only [record, containsDML]
-    exact (record_char fe iter cx).append (record_char fe body cx)
+    simp only [record, containsG]
+    exact (record_charG hr fe iter _).append (record_charG hr fe body cx)
   | .insert _ shape onC els, cx => by
-    simp only [record, containsDML]
-    exact OkEmpty.guard (OkEmpty.single.append ((recordL_char fe shape _).append
-      ((recordL_char fe onC cx).append (recordL_char fe els cx))))
+    simp only [record, containsG]
+    exact OkAny.guard (OkAny.stmtHead hr ((recordL_charG hr fe shape _).append
+      ((recordL_charG hr fe onC cx).append (recordL_charG hr fe els cx))))
   | .update subj filter shape, cx => by
-    simp only [record, containsDML]
-    exact OkEmpty.guard (OkEmpty.single.append ((record_char fe subj cx).append
-      ((recordL_char fe filter _).append (recordL_char fe shape _))))
+    simp only [record, containsG]
+    exact OkAny.guard (OkAny.stmtHead hr ((record_charG hr fe subj _).append
+      ((recordL_charG hr fe filter _).append (recordL_charG hr fe shape _))))
   | .delete subj filter order offlim, cx => by
-    simp only [record, containsDML]
-    exact OkEmpty.guard (OkEmpty.single.append ((record_char fe subj cx).append
-      ((recordL_char fe filter _).append ((recordL_char fe order _).append (recordL_char fe offlim cx)))))
-theorem recordL_char (fe : FnEnv) : ∀ (qs : QList) (cx : Cx), OkEmpty (recordL fe cx qs) (containsDMLL fe qs)
-  | .nil, _ => by simpa [recordL, containsDMLL] using OkEmpty.nil
+    simp only [record, containsG]
+    exact OkAny.guard (OkAny.stmtHead hr ((record_charG hr fe subj _).append
+      ((recordL_charG hr fe filter _).append ((recordL_charG hr fe order _).append
+        (recordL_charG hr fe offlim _)))))
+  | .free shape, cx => by
+    simp only [record, containsG]; exact recordL_charG hr fe shape _
+theorem recordL_charG {p : Rec → Bool} {g : FnDecl → Bool} (hr : Reading p g) (fe : FnEnv) :
+    ∀ (qs : QList) (cx : Cx), OkAny p (recordL fe cx qs) (containsGL g fe qs)
+  | .nil, _ => by simpa [recordL, containsGL] using OkAny.nil
   | .cons q qs, cx => by
-    simp only [recordL, containsDMLL]
-    exact (record_char fe q cx).append (recordL_char fe qs cx)
+    simp only [recordL, containsGL]
+    exact (record_charG hr fe q cx).append (recordL_charG hr fe qs cx)
 end
+
+theorem hasDml_eq_any (l : List Rec) : hasDml l = l.any (fun _ => true) := by
+  cases l <;> simp [hasDml]
+
+/-- `has_dml` is true exactly when the query contains DML (nodes or calls of Modifying functions) -/
+theorem record_hasDml {fe : FnEnv} {cx : Cx} {q : Q} {l : List Rec}
+    (h : record fe cx q = .ok l) : hasDml l = containsDML fe q := by
+  rw [hasDml_eq_any]; exact record_charG reading_all fe q cx l h
+
+/-- a DML statement is recorded (directly or through an inlined call) exactly when `containsStmt` -/
+theorem record_isStmt {fe : FnEnv} {cx : Cx} {q : Q} {l : List Rec}
+    (h : record fe cx q = .ok l) : l.any Rec.isStmt = containsStmt fe q :=
+  record_charG reading_stmt fe q cx l h
 
 theorem record_nonempty {fe : FnEnv} {cx : Cx} {q : Q} {l : List Rec}
     (h : record fe cx q = .ok l) (hd : containsDML fe q = true) : hasDml l = true := by
-  have := record_char fe q cx l h
-  simp [hasDml, this, hd]
+  rw [record_hasDml h, hd]
 
 theorem record_empty {fe : FnEnv} {cx : Cx} {q : Q} {l : List Rec}
     (h : record fe cx q = .ok l) (hd : containsDML fe q = false) : hasDml l = false := by
-  have := record_char fe q cx l h
-  simp [hasDml, this, hd]
+  rw [record_hasDml h, hd]
 
-/-! ### nothing recorded ⇒ evaluation does not change the DB -/
+/-- reaching a DML statement is a special case of containing DML -/
+theorem fnFlag_mono (g : FnDecl → Bool) (fe : FnEnv) (f : Nat) (h : fnFlag g fe f = true) :
+    fnFlag (fun _ => true) fe f = true := by
+  unfold fnFlag at *
+  cases hf : fe[f]? with
+  | none => simp [hf] at h
+  | some d => simp [hf] at h ⊢; exact h.1
+
+mutual
+theorem containsG_mono (g : FnDecl → Bool) (fe : FnEnv) :
+    ∀ q : Q, containsG g fe q = true → containsG (fun _ => true) fe q = true
+  | .lit _, h => by simp [containsG] at h
+  | .var _, h => by simp [containsG] at h
+  | .objs _, h => by simp [containsG] at h
+  | .op args, h => by
+    simp only [containsG] at h ⊢; exact containsGL_mono g fe args h
+  | .call f args, h => by
+    simp only [containsG, Bool.or_eq_true] at h ⊢
+    rcases h with h | h
+    · exact Or.inl (containsGL_mono g fe args h)
+    · exact Or.inr (fnFlag_mono g fe f h)
+  | .ifElse c t e, h => by
+    simp only [containsG, Bool.or_eq_true] at h ⊢
+    rcases h with h | h | h
+    · exact Or.inl (containsG_mono g fe c h)
+    · exact Or.inr (Or.inl (containsG_mono g fe t h))
+    · exact Or.inr (Or.inr (containsG_mono g fe e h))
+  | .select subj shape filter order offlim, h => by
+    simp only [containsG, Bool.or_eq_true] at h ⊢
+    rcases h with h | h | h | h | h
+    · exact Or.inl (containsG_mono g fe subj h)
+    · exact Or.inr (Or.inl (containsGL_mono g fe shape h))
+    · exact Or.inr (Or.inr (Or.inl (containsGL_mono g fe filter h)))
+    · exact Or.inr (Or.inr (Or.inr (Or.inl (containsGL_mono g fe order h))))
+    · exact Or.inr (Or.inr (Or.inr (Or.inr (containsGL_mono g fe offlim h))))
+  | .withB _ b body, h => by
+    simp only [containsG, Bool.or_eq_true] at h ⊢
+    rcases h with h | h
+    · exact Or.inl (containsG_mono g fe b h)
+    · exact Or.inr (containsG_mono g fe body h)
+  | .forQ _ iter body, h => by
+    simp only [containsG, Bool.or_eq_true] at h ⊢
+    rcases h with h | h
+    · exact Or.inl (containsG_mono g fe iter h)
+    · exact Or.inr (containsG_mono g fe body h)
+  | .insert .., _ => by simp [containsG]
+  | .update .., _ => by simp [containsG]
+  | .delete .., _ => by simp [containsG]
+  | .free shape, h => by
+    simp only [containsG] at h ⊢; exact containsGL_mono g fe shape h
+theorem containsGL_mono (g : FnDecl → Bool) (fe : FnEnv) :
+    ∀ qs : QList, containsGL g fe qs = true → containsGL (fun _ => true) fe qs = true
+  | .nil, h => by simp [containsGL] at h
+  | .cons q qs, h => by
+    simp only [containsGL, Bool.or_eq_true] at h ⊢
+    rcases h with h | h
+    · exact Or.inl (containsG_mono g fe q h)
+    · exact Or.inr (containsGL_mono g fe qs h)
+end
+
+theorem containsStmt_containsDML {fe : FnEnv} {q : Q} (h : containsStmt fe q = true) :
+    containsDML fe q = true := containsG_mono _ fe q h
+
+/-! ### no DML statement reached ⇒ evaluation does not change the DB -/
 
 theorem foldl_fst {β : Type} (g : DB → Nat → DB × Val) (hg : ∀ db v, (g db v).1 = db) :
     ∀ (vs : List Nat) (db : DB) (acc : Val),
@@ -144,147 +243,171 @@ theorem foldl_fst {β : Type} (g : DB → Nat → DB × Val) (hg : ∀ db v, (g 
     have := foldl_fst (β := β) g hg vs (g db v).1 (acc ++ (g db v).2)
     rw [this, hg]
 
-theorem callee_nil {fe : FnEnv} {cx : Cx} {f : Nat}
+theorem callee_pure {fe : FnEnv} (hwf : fe.WF) {cx : Cx} {f : Nat} {lc : List Rec}
     (h : (match fe[f]? with
        | none => (.error .unknownFn : Except Reject (List Rec))
-       | some d =>
-         if d.modifying then
-           if d.dmlStmt && cx.disallow then .error .clause
-           else if cx.selShape then .error .shape
-           else .ok [.call f d.dmlStmt]
-         else .ok []) = .ok []) : ∃ d, fe[f]? = some d ∧ d.modifying = false := by
+       | some d => callRec cx f d) = .ok lc) (hs : lc.any Rec.isStmt = false) :
+    ∃ d, fe[f]? = some d ∧ ∀ db vs, (d.sem db vs).1 = db := by
   cases hf : fe[f]? with
   | none => simp [hf] at h
   | some d =>
     refine ⟨d, rfl, ?_⟩
+    have hw := hwf f d hf
+    simp only [hf] at h
+    have hany := okAny_callRec reading_stmt cx f d lc h
+    rw [hs] at hany
     cases hm : d.modifying with
-    | false => rfl
+    | false => exact hw.2 (hw.1 hm)
     | true =>
-      simp only [hf, hm, if_true] at h
-      split at h
-      · cases h
-      · split at h <;> cases h
+      rw [hm, Bool.true_and] at hany
+      exact hw.2 hany.symm
 
-theorem guard_nil {cx : Cx} {s : Rec} {r : Except Reject (List Rec)}
+theorem guard_stmt {cx : Cx} {s : DmlKind} {r : Except Reject (List Rec)} {l : List Rec}
     (h : (match dmlGuard cx with
           | .error e => (Except.error e : Except Reject (List Rec))
-          | .ok () => appendR (.ok [s]) r) = .ok []) : False := by
+          | .ok () => appendR (.ok [.stmt s]) r) = .ok l) (hs : l.any Rec.isStmt = false) : False := by
   cases hg : dmlGuard cx with
   | error e => simp [hg] at h
   | ok u =>
     cases u
     simp only [hg] at h
-    have := (appendR_nil h).1
-    cases this
+    obtain ⟨la, lb, ha, _, h1, _⟩ := appendR_any h hs
+    cases ha
+    simp [Rec.isStmt] at h1
 
 mutual
-theorem run_pure (fe : FnEnv) (hwf : fe.WF) :
-    ∀ (q : Q) (cx : Cx) (ρ : VEnv) (db : DB), record fe cx q = .ok [] → (run fe ρ db q).1 = db
-  | .lit _, _, _, _, _ => rfl
-  | .var _, _, _, _, _ => rfl
-  | .objs _, _, _, _, _ => rfl
-  | .op args, cx, ρ, db, h => by
+theorem run_pureS (fe : FnEnv) (hwf : fe.WF) :
+    ∀ (q : Q) (cx : Cx) (l : List Rec) (ρ : VEnv) (db : DB), record fe cx q = .ok l →
+      l.any Rec.isStmt = false → (run fe ρ db q).1 = db
+  | .lit _, _, _, _, _, _, _ => rfl
+  | .var _, _, _, _, _, _, _ => rfl
+  | .objs _, _, _, _, _, _, _ => rfl
+  | .op args, cx, l, ρ, db, h, hs => by
     simp only [record] at h
-    simp only [run]; exact runL_pure fe hwf args cx ρ db h
-  | .call f args, cx, ρ, db, h => by
+    simp only [run]; exact runL_pureS fe hwf args cx l ρ db h hs
+  | .call f args, cx, l, ρ, db, h, hs => by
     simp only [record] at h
-    obtain ⟨ha, hc⟩ := appendR_nil h
-    obtain ⟨d, hd, hm⟩ := callee_nil hc
+    obtain ⟨la, lc, ha, hc, hsa, hsc⟩ := appendR_any h hs
+    obtain ⟨d, hd, hp⟩ := callee_pure hwf hc hsc
     simp only [run, hd]
-    rw [hwf f d hd hm]; exact runL_pure fe hwf args cx ρ db ha
-  | .ifElse c t e, cx, ρ, db, h => by
+    rw [hp]; exact runL_pureS fe hwf args cx la ρ db ha hsa
+  | .ifElse c t e, cx, l, ρ, db, h, hs => by
     simp only [record] at h
-    obtain ⟨hc, h2⟩ := appendR_nil h
-    obtain ⟨ht, he⟩ := appendR_nil h2
+    obtain ⟨l1, l', h1, h', hs1, hs'⟩ := appendR_any h hs
+    obtain ⟨l2, l3, h2, h3, hs2, hs3⟩ := appendR_any h' hs'
     simp only [run]
     split
-    · rw [run_pure fe hwf t cx ρ _ ht]; exact run_pure fe hwf c cx ρ db hc
-    · rw [run_pure fe hwf e cx ρ _ he]; exact run_pure fe hwf c cx ρ db hc
-  | .select subj shape filter order offlim, cx, ρ, db, h => by
+    · rw [run_pureS fe hwf t cx l2 ρ _ h2 hs2]; exact run_pureS fe hwf c cx l1 ρ db h1 hs1
+    · rw [run_pureS fe hwf e cx l3 ρ _ h3 hs3]; exact run_pureS fe hwf c cx l1 ρ db h1 hs1
+  | .select subj shape filter order offlim, cx, l, ρ, db, h, hs => by
     simp only [record] at h
-    obtain ⟨h1, h⟩ := appendR_nil h
-    obtain ⟨h2, h⟩ := appendR_nil h
-    obtain ⟨h3, h⟩ := appendR_nil h
-    obtain ⟨h4, h5⟩ := appendR_nil h
+    obtain ⟨l1, l', h1, h', hs1, hs'⟩ := appendR_any h hs
+    obtain ⟨l2, l'', h2, h'', hs2, hs''⟩ := appendR_any h' hs'
+    obtain ⟨l3, l''', h3, h''', hs3, hs'''⟩ := appendR_any h'' hs''
+    obtain ⟨l4, l5, h4, h5, hs4, hs5⟩ := appendR_any h''' hs'''
     simp only [run]
-    rw [runL_pure fe hwf offlim _ ρ _ h5, runL_pure fe hwf order _ ρ _ h4,
-      runL_pure fe hwf filter _ ρ _ h3, runL_pure fe hwf shape _ ρ _ h2]
-    exact run_pure fe hwf subj cx ρ db h1
-  | .withB x b body, cx, ρ, db, h => by
+    rw [runL_pureS fe hwf offlim _ l5 ρ _ h5 hs5, runL_pureS fe hwf order _ l4 ρ _ h4 hs4,
+      runL_pureS fe hwf filter _ l3 ρ _ h3 hs3, runL_pureS fe hwf shape _ l2 ρ _ h2 hs2]
+    exact run_pureS fe hwf subj _ l1 ρ db h1 hs1
+  | .withB x b body, cx, l, ρ, db, h, hs => by
     simp only [record] at h
-    obtain ⟨h1, h2⟩ := appendR_nil h
+    obtain ⟨l1, l2, h1, h2, hs1, hs2⟩ := appendR_any h hs
     simp only [run]
-    rw [run_pure fe hwf body cx _ _ h2]; exact run_pure fe hwf b cx ρ db h1
-  | .forQ x iter body, cx, ρ, db, h => by
+    rw [run_pureS fe hwf body cx l2 _ _ h2 hs2]; exact run_pureS fe hwf b _ l1 ρ db h1 hs1
+  | .forQ x iter body, cx, l, ρ, db, h, hs => by
     simp only [record] at h
-    obtain ⟨h1, h2⟩ := appendR_nil h
+    obtain ⟨l1, l2, h1, h2, hs1, hs2⟩ := appendR_any h hs
     simp only [run]
     have := foldl_fst (β := Unit) (fun d v => run fe ((x, [v]) :: ρ) d body)
-      (fun d v => run_pure fe hwf body cx _ d h2) (run fe ρ db iter).2 (run fe ρ db iter).1 []
-    rw [this]; exact run_pure fe hwf iter cx ρ db h1
-  | .insert _ _ _ _, cx, _, _, h => by
+      (fun d v => run_pureS fe hwf body cx l2 _ d h2 hs2) (run fe ρ db iter).2 (run fe ρ db iter).1 []
+    rw [this]; exact run_pureS fe hwf iter _ l1 ρ db h1 hs1
+  | .insert _ _ _ _, cx, l, _, _, h, hs => by
     simp only [record] at h
-    exact (guard_nil h).elim
-  | .update _ _ _, cx, _, _, h => by
+    exact (guard_stmt h hs).elim
+  | .update _ _ _, cx, l, _, _, h, hs => by
     simp only [record] at h
-    exact (guard_nil h).elim
-  | .delete _ _ _ _, cx, _, _, h => by
+    exact (guard_stmt h hs).elim
+  | .delete _ _ _ _, cx, l, _, _, h, hs => by
     simp only [record] at h
-    exact (guard_nil h).elim
-theorem runL_pure (fe : FnEnv) (hwf : fe.WF) :
-    ∀ (qs : QList) (cx : Cx) (ρ : VEnv) (db : DB), recordL fe cx qs = .ok [] → (runL fe ρ db qs).1 = db
-  | .nil, _, _, _, _ => rfl
-  | .cons q qs, cx, ρ, db, h => by
+    exact (guard_stmt h hs).elim
+  | .free shape, cx, l, ρ, db, h, hs => by
+    simp only [record] at h
+    simp only [run]; exact runL_pureS fe hwf shape _ l ρ db h hs
+theorem runL_pureS (fe : FnEnv) (hwf : fe.WF) :
+    ∀ (qs : QList) (cx : Cx) (l : List Rec) (ρ : VEnv) (db : DB), recordL fe cx qs = .ok l →
+      l.any Rec.isStmt = false → (runL fe ρ db qs).1 = db
+  | .nil, _, _, _, _, _, _ => rfl
+  | .cons q qs, cx, l, ρ, db, h, hs => by
     simp only [recordL] at h
-    obtain ⟨h1, h2⟩ := appendR_nil h
+    obtain ⟨l1, l2, h1, h2, hs1, hs2⟩ := appendR_any h hs
     simp only [runL]
-    rw [runL_pure fe hwf qs cx ρ _ h2]; exact run_pure fe hwf q cx ρ db h1
+    rw [runL_pureS fe hwf qs cx l2 ρ _ h2 hs2]; exact run_pureS fe hwf q cx l1 ρ db h1 hs1
 end
+
+/-- nothing recorded at all (no MODIFICATIONS) ⇒ evaluation does not change the DB -/
+theorem run_pure (fe : FnEnv) (hwf : fe.WF) (q : Q) (cx : Cx) (ρ : VEnv) (db : DB)
+    (h : record fe cx q = .ok []) : (run fe ρ db q).1 = db :=
+  run_pureS fe hwf q cx [] ρ db h rfl
 
 /-! ### `create function` keeps the environment well-formed -/
 
 theorem wf_nil : FnEnv.WF [] := by
   intro f d h; simp at h
 
+theorem declare_ok {fe fe' : FnEnv} {decl : Option Bool} {params : List Nat} {body : Q}
+    (h : declare fe decl params body = .ok fe') :
+    ∃ l, record fe Cx.top body = .ok l ∧ ¬ (decl = some false ∧ l.any Rec.isStmt = true) ∧
+      fe' = fe ++ [{ modifying := decl == some true || l.any Rec.isStmt
+                     dmlStmt := l.any Rec.isStmt
+                     sem := fun db vs => run fe (params.zip vs) db body }] := by
+  unfold declare at h
+  cases hr : record fe Cx.top body with
+  | error e => simp [hr] at h
+  | ok l =>
+    simp only [hr] at h
+    split at h
+    · cases h
+    · rename_i hc
+      cases h
+      refine ⟨l, rfl, ?_, rfl⟩
+      intro ⟨h1, h2⟩
+      apply hc
+      simp [h1, h2]
+
+theorem getElem?_snoc {α : Type} (l : List α) (a : α) (i : Nat) (x : α)
+    (h : (l ++ [a])[i]? = some x) : l[i]? = some x ∨ (i = l.length ∧ x = a) := by
+  by_cases hlt : i < l.length
+  · rw [List.getElem?_append_left hlt] at h; exact Or.inl h
+  · rw [List.getElem?_append_right (Nat.le_of_not_lt hlt)] at h
+    cases hidx : i - l.length with
+    | succ n => simp [hidx] at h
+    | zero =>
+      simp only [hidx, List.getElem?_cons_zero, Option.some.injEq] at h
+      exact Or.inr ⟨by omega, h.symm⟩
+
 theorem declare_wf {fe fe' : FnEnv} {decl : Option Bool} {params : List Nat} {body : Q}
     (hwf : fe.WF) (h : declare fe decl params body = .ok fe') : fe'.WF := by
-  unfold declare at h
-  cases hr : record fe Cx.top body with
-  | error e => simp [hr] at h
-  | ok l =>
-    simp only [hr] at h
-    split at h
-    · cases h
-    · cases h
-      intro f d hf hm db vs
-      by_cases hlt : f < fe.length
-      · rw [List.getElem?_append_left hlt] at hf
-        exact hwf f d hf hm db vs
-      · rw [List.getElem?_append_right (Nat.le_of_not_lt hlt)] at hf
-        cases hidx : f - fe.length with
-        | succ n => simp [hidx] at hf
-        | zero =>
-          simp only [hidx, List.getElem?_cons_zero, Option.some.injEq] at hf
-          subst hf
-          simp only [Bool.or_eq_false_iff] at hm
-          have hl : l = [] := by
-            have := hm.2; simp [hasDml] at this; exact this
-          subst hl
-          exact run_pure fe hwf body Cx.top _ db hr
+  obtain ⟨l, hr, _, hfe⟩ := declare_ok h
+  subst hfe
+  intro f d hf
+  rcases getElem?_snoc _ _ _ _ hf with hf | ⟨_, hd⟩
+  · exact hwf f d hf
+  · subst hd
+    constructor
+    · intro hm
+      simp only [Bool.or_eq_false_iff] at hm
+      exact hm.2
+    · intro hs db vs
+      exact run_pureS fe hwf body Cx.top l _ db hr hs
 
-/-- a declared function is Modifying whenever its body contains DML (declared lower is rejected) -/
+/-- a declared function whose body reaches a DML statement (directly, in any position, or through
+calls of functions that do) is Modifying and is known to reach one -/
 theorem declare_modifying {fe fe' : FnEnv} {decl : Option Bool} {params : List Nat} {body : Q}
-    (h : declare fe decl params body = .ok fe') (hb : containsDML fe body = true) :
-    fnModifying fe' fe.length = true := by
-  unfold declare at h
-  cases hr : record fe Cx.top body with
-  | error e => simp [hr] at h
-  | ok l =>
-    simp only [hr] at h
-    have hd := record_nonempty hr hb
-    split at h
-    · cases h
-    · cases h
-      simp [fnModifying, hd]
+    (h : declare fe decl params body = .ok fe') (hb : containsStmt fe body = true) :
+    fnModifying fe' fe.length = true ∧ fnDmlStmt fe' fe.length = true := by
+  obtain ⟨l, hr, _, hfe⟩ := declare_ok h
+  subst hfe
+  have hs : l.any Rec.isStmt = true := by rw [record_isStmt hr, hb]
+  simp [fnModifying, fnDmlStmt, fnFlag, hs]
 
 end EdbVerif.Caps
